@@ -76,6 +76,7 @@ class FnSpec:
     substs: List[Tuple[str, str]] = field(default_factory=list)
     foreach: List[int] = field(default_factory=list)
     desugar_try: List[str] = field(default_factory=list)
+    loopify: List[Tuple[str, int]] = field(default_factory=list)   # (method, ordinal): iterator chains rewritten by rules R15..R18
     folds: List[int] = field(default_factory=list)          # ordinals of `.fold(` calls rewritten by rule R14
     scans: List[int] = field(default_factory=list)          # ordinals of `.position(` calls rewritten by rule R13   # ordinals of `?` operators (or `all`) rewritten by rule R10
     no_canary: bool = False
@@ -270,6 +271,9 @@ def parse(path: str) -> UnitSpec:
             cur.substs.append((a.strip(), b.strip()))
         elif head == "desugar_try":
             cur.desugar_try = rest.split()
+        elif head == "loopify":
+            m = re.match(r"^(\w+)(?:#(\d+)|\s+(\d+))?$", rest)
+            cur.loopify.append((m.group(1), int(m.group(2) or m.group(3) or 1)))
         elif head == "fold":
             cur.folds += [int(x) for x in rest.split()]
         elif head == "scan":
